@@ -148,7 +148,7 @@ func (s *JSchema) AddType(name string, sc schema.Schema) (err error) {
 			return errs.ErrEmptyType.F(name)
 		}
 
-		s.Inner.AddNamedType(name, typ.Inner, s.File, 0)
+		s.Inner.AddNamedType(name, typ.Inner, typ.File, 0)
 		s.UserTypeCollection[name] = typ
 	case *regex.RSchema:
 		typSc, err := FromRSchema(typ)
